@@ -20,6 +20,7 @@ TypTok    == {"none"} \cup ScalarTyp \cup
 KwTyp     == "OptDict"                       \* the type of a **kwargs-style parameter (N7)
 \* tokens that only ever appear in observations (fills and fall-backs)
 ObsTypTok == TypTok \cup {KwTyp, "object", "Any", "NoneType", "dict", "other"}
+             \cup {"Opt:" \o t : t \in {"float", "ListStr", "LitStr", "UnionIntStr", "TupleIntStr", "Dotted", "object", "Any", "dict", "NoneType"}}
 
 \* ---- defaults --------------------------------------------------------------
 DefTok    == {"absent", "none", "int0", "intPos", "intNeg", "float", "boolT", "boolF", "strEmpty", "str", "code"}
